@@ -246,6 +246,15 @@ def _loop_over_param(fi: FuncInfo, param: str) -> ast.For:
     return loops[0]
 
 
+def _map_name(a) -> Optional[str]:
+    """name of the definition map in `e.xreplace(emap)` or `e.xreplace({k: emap[k] for k in ... if k in emap})`"""
+    if isinstance(a, ast.Name):
+        return a.id
+    if isinstance(a, ast.DictComp) and isinstance(a.value, ast.Subscript) and isinstance(a.value.value, ast.Name) and norm(a.value.slice) == norm(a.key):
+        return a.value.value.id
+    return None
+
+
 def check_merge_expressions(ctx: Ctx, fi: FuncInfo):
     p = fi.params[0]
     loop = _loop_over_param(fi, p)
@@ -264,10 +273,14 @@ def check_merge_expressions(ctx: Ctx, fi: FuncInfo):
         and isinstance(first.value.func.value, ast.Name)
         and first.value.func.value.id == e
         and len(first.value.args) == 1
-        and isinstance(first.value.args[0], ast.Name)
+        and _map_name(first.value.args[0]) is not None
     )
-    ctx.check(sub_ok, "RW-DEFS", fi, "inline earlier definitions first", "e = e.xreplace(emap) precedes every use", f"first statement of the loop is `{norm(first) if first else ''}`", first or loop)
-    emap = first.value.args[0].id if sub_ok else None
+    ctx.check(sub_ok, "RW-DEFS", fi, "inline earlier definitions first", "e = e.xreplace(emap) precedes every use", f"first statement of the loop is `{norm(first) if first else ''}`: the map of earlier definitions must be applied, as a whole, before anything else", first or loop)
+    emap = _map_name(first.value.args[0]) if sub_ok else None
+    if sub_ok:
+        call = first.value
+        simultaneous = call.func.attr == "xreplace" or any(k.arg == "simultaneous" and isinstance(k.value, ast.Constant) and k.value.value is True for k in call.keywords)
+        ctx.check(simultaneous, "RW-SUBST", fi, "inlining is a simultaneous substitution", "xreplace", "subs() with a mapping applies the pairs one after another: when an inlined definition mentions a symbol that was re-bound later (t = a; a = b; b = t) that symbol is substituted again inside it", call)
     # (2) every iteration either records emap[s] = e or appends (s, e); nothing else consumes the pair
     stores, appends = [], []
     for n in ast.walk(loop):
